@@ -132,6 +132,34 @@ template <class Mesh> void HistRun<Mesh>::op_fork(const Op &q) {
         st.add("probe_fork_cross_kernel");
         return;
     }
+    if (k == "FORK_ASSIGN_BARE") {
+        // assignment from a mesh that carries no property of any kind except its positions (every replica of the harness carries the uid
+        // tags, so this is the only source whose per-kind registries are empty): handles held into the target must still be resized
+        int di = (unsigned)q.a[1] % reps.size();
+        R &dst = *reps[di];
+        Mesh bare;
+        int nv = (q.a[2] % 3) == 0 ? 0 : 1 + q.a[3] % 6;
+        for (int i = 0; i < nv; ++i) bare.add_vertex(Vec3d(0, 0, 0));
+        if ((q.a[2] % 3) == 2) for (int i = 0; i + 1 < nv; ++i) bare.add_edge(VertexHandle(i), VertexHandle(i + 1));
+        Snap sb = take_snap(bare);
+        *dst.mesh = bare;
+        Snap sd = take_snap(*dst.mesh);
+        if (snap_digest(sb) != snap_digest(sd)) ctx.fail({"C13"}, "assign-differs", "target differs from a property-less source after assignment");
+        for (auto &mp : dst.props) if (mp.attached) { mp.shared = false; mp.persistent = false; mp.unspecified = true; mp.val.clear(); }
+        Model nm;
+        nm.deferred = sd.deferred; nm.fast = sd.fast;
+        for (int i = 0; i < 3; ++i) nm.bu[i] = sd.bu[i];
+        for (int i = 0; i < sd.n[BV]; ++i) nm.add_vertex();
+        for (int i = 0; i < sd.n[BE]; ++i) nm.add_edge(sd.E[i].first, sd.E[i].second);
+        dst.m = nm;
+        dst.vpos.assign((size_t)sd.n[BV], INT_MIN);
+        dst.lat_v.clear(); dst.lat_c.clear(); dst.io.clear();
+        dst.pos_persistent = false;
+        dst.write_tags();   // (the tags are privately held handles of the target: they must have followed the new entity counts)
+        st.add("probe_fork_assign_from_bare_mesh");
+        for (int i = 0; i < NHELD; ++i) if (held[i].h && held[i].rep == di) { st.add("probe_assign_with_live_handles"); break; }
+        return;
+    }
     if (k == "FORK_SELF") { Mesh &m = *src.mesh; Mesh &alias = m; m = alias; st.add("probe_self_assign"); return; }
     if (k == "FORK_ASSIGN") {
         if (reps.size() < 2) return;
